@@ -5,6 +5,7 @@ RC = "-lrapidcheck"
 TARGETS = {
     "t_kernel": dict(variant="asan", srcs=["t_kernel.cc"], libs=RC),
     "t_queries": dict(variant="asan", srcs=["t_queries.cc"], libs=RC),
+    "t_io": dict(variant="asan", srcs=["t_io.cc"], libs=RC),
     "t_handles": dict(variant="opt", srcs=["t_handles.cc"], libs="-lpthread"),
 }
 
@@ -194,6 +195,28 @@ CHECKS = {
         technique="rapidcheck histories + acceptance predicate + handle-exact before/after snapshots",
         level_text="Validation logic of the polyhedral kernel against an independent closedness predicate, with full-state unchanged checks.",
         level_note="Tet/hex valence validation is covered by C15/C16.",
+    ),
+    "C06": dict(
+        kind="rc_program", target="t_io", level="exploration",
+        quick=dict(workers=16, max_success=600, max_size=100, len_scale=0.6, timeout=900),
+        thorough=dict(workers=16, max_success=2000, max_size=100, len_scale=1.5, timeout=3600),
+        rule=("cases = generated polyhedral (random histories after garbage collection, non-manifold allowed), tetrahedral and "
+              "hexahedral meshes with up to 10 persistent properties over all 30 registered OVMB value types (special "
+              "floats, NaN payloads, empty/long/binary strings, invalid handles) on all seven entity kinds, random "
+              "names and defaults, directed index-width boundary sizes (254-257, 65534-65537 vertices; 127-129, "
+              "32767-32769 edges/faces). Oracles: (1) ovmb_read(ovmb_write(M)) == M handle for handle incl. bit-exact "
+              "values and defaults, both ReadOptions; (2) an independent decoder written from ovmb.ksy decodes the "
+              "writer's bytes to M; (3) re-encodings permitted by the description (1-4 spans per chunk kind, wider "
+              "ints, float vertices, non-zero handle offsets, variable valence, optional unknown chunks, interleaved "
+              "and split PROP chunks, extra zero padding) read to M; (4) topo_type detection; (5) a mesh with pending "
+              "deletions is refused or written as its logical content. non-trivial = >=1 cell and >=2 persistent "
+              "properties on different kinds incl. a half-entity kind and a bool/string property, or a directed "
+              "boundary size; distinct = distinct program hash"),
+        assumptions=["the reference codec implements extra/ovmb-kaitai/ovmb.ksy + binary_file_format.docu, no library code",
+                     "each OVMB write allocates a 100 MB buffer (about 30 ms), which bounds the case count"],
+        technique="rapidcheck generated meshes/properties + round-trip, independent reference decoder, metamorphic reference encoder",
+        level_text="Round-trip, differential (independent codec) and metamorphic (all permitted encodings) testing of the binary format.",
+        level_note="Index widths beyond 65537 entities are not generated; the ASCII format part is not covered by this check yet.",
     ),
 }
 
